@@ -1,7 +1,14 @@
 package props
 
 import (
+	"encoding/json"
 	"fmt"
+	"os"
+	"os/exec"
+	"path/filepath"
+	"regexp"
+	"strings"
+	"sync"
 
 	"verifsim/engine"
 	"verifsim/machine"
@@ -25,7 +32,7 @@ func (c25) Budget(tier string) int {
 	if tier == "thorough" {
 		return 8000
 	}
-	return 200
+	return 600
 }
 
 func (c25) Describe() engine.Info {
@@ -36,12 +43,27 @@ func (c25) Describe() engine.Info {
 			"interleaving is cooperative and decided by the seed; truly concurrent execution under the race detector is not part of the deciding step (a race without a behavioural difference in some interleaving is outside what this check can show)",
 			"a panic of the emulator ends that instance's run; it must occur at the same cycle as in the solo run",
 		},
-		RequiredProbes: []string{"blocked_in_serial_writer", "single_cycle_slices", "created_mid_run", "instances"},
+		RequiredProbes: []string{"blocked_in_serial_writer", "single_cycle_slices", "created_mid_run", "instances", "concurrent_runs"},
 		RealComponents: realComponents, StubComponents: stubComponents,
 	}
 }
 
 func (c25) Generate(r *engine.Rand, index int, tier string) *engine.Scenario {
+	if index%10 == 9 {
+		// truly concurrent construction and execution (no simulated devices attached, so the instances
+		// share nothing with the harness), run by a race-detector build in a child process
+		sc := &engine.Scenario{Class: "concurrent"}
+		n := r.Range(2, 4)
+		sc.SetP("n", int64(n))
+		for i := 0; i < n; i++ {
+			w := randomWorkload(r)
+			w.Audio, w.Video = false, false
+			w.Debug = r.Chance(1, 3)
+			w.store(sc, fmt.Sprintf("i%d.", i))
+		}
+		sc.Cycles = uint64(r.Range(1, 3)) * 17556
+		return sc
+	}
 	sc := &engine.Scenario{Class: "interleave"}
 	n := 2
 	if r.Chance(1, 3) {
@@ -54,6 +76,7 @@ func (c25) Generate(r *engine.Rand, index int, tier string) *engine.Scenario {
 			w.Kind = "scene" // sprites, audio: lots of shared-looking state
 			w.Video = true
 		}
+		w.Debug = r.Chance(1, 4) // instances of different configurations
 		w.store(sc, fmt.Sprintf("i%d.", i))
 	}
 	total := uint64(r.Range(1, 4)) * 17556
@@ -179,7 +202,166 @@ func (in *c25inst) step(k uint64, res *engine.Result, solo bool) {
 	}
 }
 
+// ---- class concurrent -----------------------------------------------------------------------
+
+type concReport struct {
+	Solo    [][]uint64 `json:"solo"`
+	Conc    [][]uint64 `json:"conc"`
+	Harness string     `json:"harness,omitempty"`
+}
+
+func concRun(sc *engine.Scenario, i int) ([]uint64, string) {
+	res := &engine.Result{}
+	w := loadWorkload(sc, fmt.Sprintf("i%d.", i))
+	m := newFree(w, 0, res)
+	if m == nil {
+		return nil, res.Harness
+	}
+	t := newTracer(m, 2048)
+	m.OnCycle = t.cycle
+	if pi := machine.Protect(func() { m.RunCycles(sc.Cycles) }); pi != nil {
+		if !pi.Emulator {
+			return nil, "harness panic: " + pi.Value + "\n" + pi.Stack
+		}
+		t.dg.Str("panic:" + pi.Site)
+		t.dg.U64(m.N)
+	}
+	t.finish()
+	return t.points, ""
+}
+
+// ConcurrentJSON is the child-process side of class concurrent (run by the race-detector build):
+// every workload alone, then all of them constructed and run at the same time by as many
+// goroutines released together. It prints the checkpoint digests of both.
+func ConcurrentJSON(path string) int {
+	sc, err := engine.LoadScenario(path)
+	if err != nil {
+		fmt.Printf("{\"harness\":%q}\n", err.Error())
+		return 2
+	}
+	n := int(sc.P("n", 2))
+	rep := concReport{Solo: make([][]uint64, n), Conc: make([][]uint64, n)}
+	machine.ScratchDir()
+	for i := 0; i < n; i++ {
+		var h string
+		if rep.Solo[i], h = concRun(sc, i); h != "" {
+			rep.Harness = h
+		}
+	}
+	var wg sync.WaitGroup
+	var mu sync.Mutex
+	start := make(chan struct{})
+	for i := 0; i < n; i++ {
+		wg.Add(1)
+		go func(i int) {
+			defer wg.Done()
+			<-start
+			pts, h := concRun(sc, i)
+			mu.Lock()
+			rep.Conc[i] = pts
+			if h != "" {
+				rep.Harness = h
+			}
+			mu.Unlock()
+		}(i)
+	}
+	close(start)
+	wg.Wait()
+	b, _ := json.Marshal(rep)
+	fmt.Println(string(b))
+	return 0
+}
+
+var raceFrame = regexp.MustCompile(`github\.com/scottyw/tetromino/([A-Za-z0-9_/.()*]+)`)
+
+func executeConcurrent(sc *engine.Scenario) *engine.Result {
+	res := &engine.Result{}
+	exe := os.Getenv("VERIF_RACE_BIN")
+	if exe == "" {
+		self, err := os.Executable()
+		if err != nil {
+			res.Harness = err.Error()
+			return res
+		}
+		exe = self + "-race"
+	}
+	if _, err := os.Stat(exe); err != nil {
+		res.Harness = "race-detector build of the simulator not found at " + exe
+		return res
+	}
+	dir, err := os.MkdirTemp(machine.ScratchDir(), "conc-")
+	if err != nil {
+		res.Harness = err.Error()
+		return res
+	}
+	defer os.RemoveAll(dir)
+	file := filepath.Join(dir, "scenario.json")
+	if err := os.WriteFile(file, sc.JSON(), 0o600); err != nil {
+		res.Harness = err.Error()
+		return res
+	}
+	cmd := exec.Command(exe, "-concurrent", file)
+	cmd.Env = append(os.Environ(), "GORACE=log_path="+filepath.Join(dir, "race")+" halt_on_error=0 exitcode=0 history_size=3", "GOMAXPROCS=4")
+	out, err := cmd.Output()
+	var rep concReport
+	if err != nil || json.Unmarshal(out, &rep) != nil {
+		res.Harness = fmt.Sprintf("concurrent child failed: %v: %.300s", err, out)
+		return res
+	}
+	if rep.Harness != "" {
+		res.Harness = rep.Harness
+		return res
+	}
+	n := int(sc.P("n", 2))
+	res.ProbeN("instances", n)
+	res.Probe("concurrent_runs")
+	res.Fault("concurrent_construction")
+	kinds := ""
+	for i := 0; i < n; i++ {
+		w := loadWorkload(sc, fmt.Sprintf("i%d.", i))
+		kinds += w.Kind + "+"
+		if d := diffPoint(rep.Conc[i], rep.Solo[i]); d >= 0 {
+			res.Fail("C25/concurrent-differs-from-solo/"+w.Kind, uint64(d)*2048, "instance %d (%s): checkpoint %d differs from its solo run when %d instances are constructed and run concurrently", i, w.Kind, d, n)
+			return res
+		}
+		res.Cycles += sc.Cycles
+		if k := len(rep.Solo[i]); k > 0 {
+			res.Digest ^= rep.Solo[i][k-1] + uint64(i)
+		}
+	}
+	logs, _ := filepath.Glob(filepath.Join(dir, "race.*"))
+	for _, lf := range logs {
+		b, _ := os.ReadFile(lf)
+		txt := string(b)
+		if !strings.Contains(txt, "DATA RACE") {
+			continue
+		}
+		site := "unknown"
+		if mm := raceFrame.FindStringSubmatch(txt); mm != nil {
+			site = mm[1]
+		} else {
+			// a race that does not involve emulator code is the harness's own
+			res.Harness = fmt.Sprintf("data race outside emulator code: %.600s", txt)
+			return res
+		}
+		first := txt
+		if i := strings.Index(first, "\n\n"); i > 0 {
+			first = first[:i]
+		}
+		if len(first) > 900 {
+			first = first[:900]
+		}
+		res.Fail("C25/data-race/"+site, 0, "instances constructed and run concurrently access the same memory without synchronisation (one instance reads or changes state another uses): %s", strings.ReplaceAll(first, "\n", " | "))
+		return res
+	}
+	res.Sig(fmt.Sprintf("%sconcurrent/n=%d", kinds, n))
+	return res
+}
+
 func (c25) Execute(sc *engine.Scenario) *engine.Result {
+	if sc.Class == "concurrent" {
+		return executeConcurrent(sc)
+	}
 	res := &engine.Result{}
 	n := int(sc.P("n", 2))
 	// solo runs, one after the other
